@@ -190,7 +190,7 @@ add("C06", "model_checking",
     "ints +1; floats only; rounding bases doubled): only rules that take the group's parameters (or are rounded by it) and their descendants "
     "in the dependency graph may change, everything else must be bit-identical, and each group must change something (non-vacuity reported); "
     "(b) every policy rule in the graph replaced by an identical clone (as dict entry and as list element), by a same-signature wrapper and by "
-    "a perturbed wrapper (+1 / logical not): identical replacements change nothing at all, the perturbed one only descendants of the rule; "
+    "a perturbed wrapper (+1000 / logical not): identical replacements change nothing at all, the perturbed one changes the rule's own column and otherwise only descendants of the rule; "
     "(c) a deep copy of the parameter dictionary changes nothing.",
     "Dependency sets come from the DAG built by the implementation's own dags machinery for the same data columns; perturbed runs that raise "
     "are counted, not judged.",
